@@ -248,4 +248,31 @@ def traceAccepted (t : List (Outcome × Nat)) : Option Nat := (t.find? (fun e =>
 def markInactive (g : Group) (self : UInt8) (active : List Nat) : Group :=
   { g with ia := g.ia ++ (memberIndexes g.size).filter (fun i => !(i == self) && !active.contains i.toNat) }
 
+/-! ## Session identifiers of the tbtc signing retry loop (`signingExecutor.sign`) -/
+
+/-- little-endian digits of `n` in base `b` (fuel `n` suffices for `b ≥ 2`) -/
+def digitsAux (b : Nat) : Nat → Nat → List Nat
+  | 0, _ => []
+  | fuel + 1, n => if n = 0 then [] else (n % b) :: digitsAux b fuel (n / b)
+
+def digits (b n : Nat) : List Nat := digitsAux b n n
+
+def ofDigits (b : Nat) : List Nat → Nat
+  | [] => 0
+  | d :: ds => d + b * ofDigits b ds
+
+/-- lower-case hexadecimal / decimal digit characters (`big.Int.Text(16)`, `%v` of a uint) -/
+def digitChar (d : Nat) : Char := if d < 10 then Char.ofNat (48 + d) else Char.ofNat (87 + d)
+
+def digitVal (c : Char) : Nat := if c.toNat < 58 then c.toNat - 48 else c.toNat - 87
+
+def showBase (b n : Nat) : List Char :=
+  if n = 0 then ['0'] else ((digits b n).reverse).map digitChar
+
+/-- `fmt.Sprintf("%v-%v", message.Text(16), attempt.number)` -/
+def sessionChars (message attempt : Nat) : List Char :=
+  showBase 16 message ++ '-' :: showBase 10 attempt
+
+def sessionId (message attempt : Nat) : String := String.ofList (sessionChars message attempt)
+
 end KeepVerif.C12
